@@ -446,6 +446,15 @@ def rule_traj(ctx, py, R="C12.TRAJ"):
                   "RDTrajectory(%s=...)" % p_, "written from .%s under %s and read back from the same key" % (a, wkeys),
                   "trajectory field `%s` is written under %s but rebuilt from `%s`: a saved trajectory does not come back with "
                   "its own %s" % (p_, wkeys or "no key", src_[:60] or "nothing", a))
+    # the separate data file holds the data array as it is (flat, sample-major): what np.save receives is the trajectory's own
+    # `data.value`, not a reshaped / transposed / sliced view of it (the loader hands the file's content to RDTrajectory unchanged)
+    saves = [c for c in pyfe.calls_in(sf) if pyfe.call_name(c) in ("np.save", "numpy.save", "np.savetxt")]
+    for c in saves:
+        a1 = pysym.isrc(c.args[1], sf, stop={obj}) if len(c.args) > 1 else ""
+        ctx.check(a1.replace(" ", "") in ("%s.data.value" % obj, "np.array(%s.data.value)" % obj, "np.asarray(%s.data.value)" % obj), R, c,
+                  sf._qual, "np.save(.., %s)" % a1[:60], "the flat data array itself", "the data file receives `%s`, not the flat "
+                  "`%s.data.value`: the trajectory read back has data of another shape / order, the point accessor and flat "
+                  "indexing fail or address other entries" % (a1[:70], obj))
     ctx.floor(R, 7)
 
 
